@@ -156,4 +156,16 @@ PLAN = {
         quick=[dict(test="TestC14", cases=960, shards=16, timeout=900)],
         thorough=[dict(test="TestC14", cases=32000, shards=16, timeout=3400, shrink=120)],
     ),
+    "C15": dict(
+        level="exploration",
+        rule=("histories (<= 30 ops quick / 80 thorough) under generated governance parameters (minimum deposit 100 / 1000 FX, minimum initial deposit ratio 0 / 25 / 100 %, minimum deposit ratio 0 / 1 / 50 %, voting period 600 / 3600 s, deposit period 500 / 2000 s, quorum 10 / 40 / 90 %, the three burn flags) and 0..3 extra delegations: "
+              "submit (text, community-pool spend with amounts at share-of-request = default minimum -1 / 0 / +1 base unit and beyond, two spends whose second may exceed the pool, erc20 toggle, two toggles whose second fails, governance switch update, mixed types) with no / the required / a generic initial deposit, "
+              "deposit (small, missing-1, exactly missing, missing+1, generic; other denomination), vote and weighted vote by users and validator operators, cancel by the proposer or somebody else, MsgUpdateCustomParams set / delete for the spend, toggle and switch types in between, time steps of 60 s or to one second before / exactly at / one second after the next deposit or voting deadline followed by the real gov end blocker. "
+              "Oracle (reference model + exact-rational tally over the staking state): after every step governance-account balance = sum of stored deposits = deposits of the model's open proposals, stored status and total deposit = model; a proposal is in voting only if its FX deposit >= max(default minimum, floor(share x requested)) for spends; voting end = start + period of its type at activation; "
+              "at the deadline the outcome equals the model's outcome with the quorum of its type at tally time (comparisons closer than 1e-15 to a threshold are skipped and counted); every depositor's balance grows by exactly the refunds of that step and the supply falls by exactly the burned deposits; cancellation refunds deposit minus the charge; mixed-type proposals are refused; "
+              "a passed proposal's messages apply all (recipients paid, token toggled) or none (recipients empty, toggle unchanged, no store other than gov / bank changed). non-trivial = a proposal ended and (>= 2 proposals of different types in the history, or per-type parameters changed while a proposal of that type was open)"),
+        assumptions=["expedited proposals are not generated (the property does not say which of the per-type and the expedited periods wins)", "per-type parameters are changed by MsgUpdateCustomParams with the governance authority directly, not through a passed proposal"],
+        quick=[dict(test="TestC15", cases=4800, shards=16, timeout=900)],
+        thorough=[dict(test="TestC15", cases=160000, shards=16, timeout=3400, shrink=120)],
+    ),
 }
